@@ -20,6 +20,8 @@ func tokPool() []*oidc.TokenResponse {
 		{IDToken: jwtB},
 		{IDToken: jwtA, RefreshToken: "rt2"},
 		{IDToken: jwtB, AccessToken: "at2", AccessTokenExpiresAt: t0.Add(time.Hour)},
+		{IDToken: jwtA, AccessToken: "at3"}, // an access token WITHOUT a known expiry (the provider omitted expires_in)
+		{IDToken: jwtB, AccessToken: "at4", RefreshToken: "rt4"},
 	}
 }
 
@@ -115,7 +117,19 @@ func runC12(r *Run) {
 		r.Extra["exhaustive_sequences_"+kind] = n
 	}
 	r.Extra["exhaustive_max_len"] = maxLen
-	n := 600
+	// "a read sees the latest write": every token response overwritten by every other one (members present in the first
+	// and absent from the second must not survive; written and read at different instances), with the login state in place
+	toksAll, authsAll := tokPool(), authPool()
+	for _, kind := range []string{"mem", "redis"} {
+		for i, a := range toksAll {
+			for j, b := range toksAll {
+				ops := []storeOp{{Kind: "setauth", ID: "ow", Auth: authsAll[(i+j)%len(authsAll)]}, {Kind: "settok", ID: "ow", Tok: a}, {Kind: "gettok", ID: "ow", Inst: 1},
+					{Kind: "settok", ID: "ow", Tok: b, Inst: 1}, {Kind: "gettok", ID: "ow"}, {Kind: "getauth", ID: "ow"}, {Kind: "clear", ID: "ow"}, {Kind: "gettok", ID: "ow", Inst: 1}}
+				runScenario(r, scenario{Kind: kind, Ops: ops}, func(storeOp) bool { return true })
+			}
+		}
+	}
+	n := 400
 	if r.thorough() {
 		n = 20000
 	}
